@@ -68,6 +68,25 @@ pub fn build_case(t: &mut Tape) -> Case {
         }
     }
 
+    // v2: inclusion functions on awkward files and ranges (an empty file, a range at the end of the machine word)
+    if crate::engine::gen_version() >= 2 && t.chance(1, 12) {
+        files.push(("zz_empty.bin".to_string(), Vec::new()));
+        files.push(("zz_three.bin".to_string(), b"abc".to_vec()));
+        let f = *t.pick(&["incbin", "incbinstr", "inchexstr"]);
+        let file = *t.pick(&["zz_empty.bin", "zz_three.bin"]);
+        let args_txt = *t.pick(&["", ", 0", ", 1", ", 0, 0", ", 3", ", 1, 0xffff_ffff_ffff_ffff", ", 0xffff_ffff_ffff_ffff", ", 0, 3", ", 2, 2"]);
+        let line = format!("#d {}(\"{}\"{})\n", f, file, args_txt);
+        let mut text = String::from_utf8_lossy(&files[root_idx].1).to_string();
+        if t.flip() {
+            text.push('\n');
+            text.push_str(&line);
+        } else {
+            text = format!("{}{}", line, text);
+        }
+        files[root_idx].1 = text.into_bytes();
+        edits += 1;
+        kinds.push("inclusion-function-on-awkward-file");
+    }
     // command line
     let mut args: Vec<String> = Vec::new();
     let use_cmd = e.command.is_some() && t.chance(3, 4);
